@@ -57,7 +57,8 @@
 (*                       the vacuity guards since then                     *)
 (*   TransientRetried    an error of the credential / revocation store is  *)
 (*                       answered with a plain error (retried); the code   *)
-(*                       wraps it in EventFatal       [X07-dropped-store]  *)
+(*                       wrapped it in EventFatal until the repair of      *)
+(*                       X07-store-error-dropped (types.ErrStorage)        *)
 (*   UnknownKeyRetried   an issuer key that cannot be resolved yet is      *)
 (*                       retried; the code answers EventFatal: the payload *)
 (*                       is only looked at again by the start-up replay    *)
